@@ -138,7 +138,7 @@ def run(chk):
             for a in waits:
                 ncs += 1
                 hs = [h for _t, h in K.enclosing_try_handlers(a) if h.type is None or {"BaseException", "asyncio.CancelledError"} & set(PC.handler_types(h))]
-                if any(any(isinstance(c, ast.Call) and norm.raw(c.func) in ("self._unread_data", "self.unread_data") and any(x in norm.raw(c) for x in accs) for c in ast.walk(h)) and isinstance(h.body[-1], ast.Raise) for h in hs):
+                if any(any(isinstance(c, ast.Call) and norm.raw(c.func) in ("self._unread_data", "self.unread_data") and any(x in norm.text(c, c) for x in accs) for c in ast.walk(h)) and isinstance(h.body[-1], ast.Raise) for h in hs):
                     chk.ok("C08.cancelsafe", a, f"{name}(): bytes already moved into `{'/'.join(sorted(accs))}` are pushed back when the wait is interrupted")
                 else:
                     acc = sorted(accs)[0]
